@@ -71,6 +71,8 @@ var floatBits = []uint64{
 func isNaNBits(b uint64) bool { return b&0x7ff0000000000000 == 0x7ff0000000000000 && b&0x000fffffffffffff != 0 }
 
 type gen struct {
+	redirect  map[int]qframe.QFrame     // congruence check: operations on member id are run on this frame instead
+	forceSrc  *hframe                   // congruence check: the next operation is generated for this member
 	batchMode bool                      // section conc: operations are collected, not executed
 	batch     []func() qframe.QFrame    // the collected operations
 	batchOps  []string                  // their kinds
@@ -629,7 +631,18 @@ func (g *gen) reobserve(except int) {
 
 // ---------------------------------------------------------------- helpers for picking
 
+// qfOf returns the frame an operation generated for member f runs on.
+func (g *gen) qfOf(f *hframe) qframe.QFrame {
+	if r, ok := g.redirect[f.id]; ok {
+		return r
+	}
+	return f.qf
+}
+
 func (g *gen) pickFrame(wantOK bool) *hframe {
+	if g.forceSrc != nil {
+		return g.forceSrc
+	}
 	for try := 0; try < 20; try++ {
 		f := g.fam[g.r.Intn(len(g.fam))]
 		if g.r.Bool() && len(g.fam) > 3 {
@@ -687,7 +700,7 @@ type clause struct {
 var cmp6 = []string{"<", "<=", ">", ">=", "=", "!="}
 
 func p1Int(x int) bool        { return x&1 == 1 }
-func p1Float(x float64) bool  { return math.Signbit(x) }
+func p1Float(x float64) bool  { return !math.IsNaN(x) && math.Signbit(x) } // the sign of a NaN is not a property of the value
 func p1Bool(x bool) bool      { return x }
 func p1Str(x *string) bool    { return x == nil }
 func p1StrLen(x *string) bool { return x != nil && len(*x) >= 2 }
@@ -977,7 +990,7 @@ var fn1Catalogue = []fnEntry{
 	{"i.str", "i", func(x int) *string { return strp(strconv.Itoa(x)) }},
 	{"i.half", "i", func(x int) float64 { return float64(x%1024) / 2 }},
 	{"f.neg", "f", func(x float64) float64 { return -x }},
-	{"f.isneg", "f", func(x float64) bool { return math.Signbit(x) }},
+	{"f.isneg", "f", func(x float64) bool { return !math.IsNaN(x) && math.Signbit(x) }},
 	{"f.sign", "f", func(x float64) int {
 		if math.IsNaN(x) {
 			return 7
@@ -1613,7 +1626,7 @@ func (g *gen) genOp() {
 		}
 		g.forceInv = false
 		g.w.Line(append(append(head, "filter"), c.toks...)...)
-		g.finish(fid, func() qframe.QFrame { return src.qf.Filter(c.c) })
+		g.finish(fid, func() qframe.QFrame { return g.qfOf(src).Filter(c.c) })
 	case "sort":
 		k := 1 + r.Intn(3)
 		if r.P(1, 15) {
@@ -1627,7 +1640,7 @@ func (g *gen) genOp() {
 			toks = append(toks, tx.HexS(name), tx.Bool01(orders[i].Reverse), tx.Bool01(orders[i].NullLast))
 		}
 		g.w.Line(toks...)
-		g.finish(fid, func() qframe.QFrame { return src.qf.Sort(orders...) })
+		g.finish(fid, func() qframe.QFrame { return g.qfOf(src).Sort(orders...) })
 	case "slice":
 		a, b := 0, 0
 		if src.n > 0 {
@@ -1645,7 +1658,7 @@ func (g *gen) genOp() {
 			}
 		}
 		g.w.Line(append(head, "slice", tx.Int(a), tx.Int(b))...)
-		g.finish(fid, func() qframe.QFrame { return src.qf.Slice(a, b) })
+		g.finish(fid, func() qframe.QFrame { return g.qfOf(src).Slice(a, b) })
 	case "select", "drop":
 		k := r.Intn(4)
 		names := []string{}
@@ -1658,9 +1671,9 @@ func (g *gen) genOp() {
 		}
 		g.w.Line(append(append(head, op), nameToks(names)...)...)
 		if op == "select" {
-			g.finish(fid, func() qframe.QFrame { return src.qf.Select(names...) })
+			g.finish(fid, func() qframe.QFrame { return g.qfOf(src).Select(names...) })
 		} else {
-			g.finish(fid, func() qframe.QFrame { return src.qf.Drop(names...) })
+			g.finish(fid, func() qframe.QFrame { return g.qfOf(src).Drop(names...) })
 		}
 	case "copy":
 		dst := g.newName(src)
@@ -1669,11 +1682,11 @@ func (g *gen) genOp() {
 		}
 		from := g.colNameMaybeBad(src, bad && r.Bool())
 		g.w.Line(append(head, "copy", tx.HexS(dst), tx.HexS(from))...)
-		g.finish(fid, func() qframe.QFrame { return src.qf.Copy(dst, from) })
+		g.finish(fid, func() qframe.QFrame { return g.qfOf(src).Copy(dst, from) })
 	case "apply":
 		ins, toks := g.genInstrs(src, bad)
 		g.w.Line(append(append(head, "apply"), toks...)...)
-		g.finish(fid, func() qframe.QFrame { return src.qf.Apply(ins...) })
+		g.finish(fid, func() qframe.QFrame { return g.qfOf(src).Apply(ins...) })
 		if !g.batchMode {
 			g.emitCounts(fid)
 		}
@@ -1683,7 +1696,7 @@ func (g *gen) genOp() {
 		ins, toks := g.genInstrs(src, bad && r.P(1, 2))
 		g.inFapply = false
 		g.w.Line(append(append(append(head, "fapply"), c.toks...), toks...)...)
-		g.finish(fid, func() qframe.QFrame { return src.qf.FilteredApply(c.c, ins...) })
+		g.finish(fid, func() qframe.QFrame { return g.qfOf(src).FilteredApply(c.c, ins...) })
 		if !g.batchMode {
 			g.emitCounts(fid)
 		}
@@ -1693,7 +1706,7 @@ func (g *gen) genOp() {
 			name = r.Pick(illegalNames)
 		}
 		g.w.Line(append(head, "rownums", tx.HexS(name))...)
-		g.finish(fid, func() qframe.QFrame { return src.qf.WithRowNums(name) })
+		g.finish(fid, func() qframe.QFrame { return g.qfOf(src).WithRowNums(name) })
 	case "eval":
 		typ := "i"
 		if len(src.cols) > 0 {
@@ -1714,15 +1727,15 @@ func (g *gen) genOp() {
 				ex = qframe.Val(e.e)
 			}
 			if g.sharedCtx != nil {
-				return src.qf.Eval(dst, ex, eval.EvalContext(g.sharedCtx))
+				return g.qfOf(src).Eval(dst, ex, eval.EvalContext(g.sharedCtx))
 			}
 			switch ctxKind {
 			case "d":
-				return src.qf.Eval(dst, ex)
+				return g.qfOf(src).Eval(dst, ex)
 			case "o":
-				return src.qf.Eval(dst, ex, eval.EvalContext(overCtx()))
+				return g.qfOf(src).Eval(dst, ex, eval.EvalContext(overCtx()))
 			}
-			return src.qf.Eval(dst, ex, eval.EvalContext(myCtx()))
+			return g.qfOf(src).Eval(dst, ex, eval.EvalContext(myCtx()))
 		})
 	case "distinct":
 		keys := g.genKeyCols(src, bad)
@@ -1731,9 +1744,9 @@ func (g *gen) genOp() {
 		nullFirst := r.Bool()
 		g.finish(fid, func() qframe.QFrame {
 			if nullFirst {
-				return src.qf.Distinct(groupby.Null(null), groupby.Columns(keys...))
+				return g.qfOf(src).Distinct(groupby.Null(null), groupby.Columns(keys...))
 			}
-			return src.qf.Distinct(groupby.Columns(keys...), groupby.Null(null))
+			return g.qfOf(src).Distinct(groupby.Columns(keys...), groupby.Null(null))
 		})
 	case "groupagg":
 		keys := g.genKeyCols(src, bad && r.P(1, 3))
@@ -1758,9 +1771,9 @@ func (g *gen) genOp() {
 		nullFirst := r.Bool()
 		g.finish(fid, func() qframe.QFrame {
 			if nullFirst {
-				return src.qf.GroupBy(groupby.Null(null), groupby.Columns(keys...)).Aggregate(aggs...)
+				return g.qfOf(src).GroupBy(groupby.Null(null), groupby.Columns(keys...)).Aggregate(aggs...)
 			}
-			return src.qf.GroupBy(groupby.Columns(keys...), groupby.Null(null)).Aggregate(aggs...)
+			return g.qfOf(src).GroupBy(groupby.Columns(keys...), groupby.Null(null)).Aggregate(aggs...)
 		})
 	case "groupframes":
 		keys := g.genKeyCols(src, bad)
@@ -1780,6 +1793,25 @@ func (g *gen) genOp() {
 		g.writerFaults(src)
 	case "tosql":
 		g.toSQL(src)
+	case "string":
+		if src.err || frameFacts(src).undef {
+			return
+		}
+		g.w.Line("W", tx.Int(src.id), "str")
+		out, pm := "", ""
+		func() {
+			defer func() {
+				if p := recover(); p != nil {
+					pm = fmt.Sprint(p)
+				}
+			}()
+			out = src.qf.String()
+		}()
+		if pm != "" {
+			g.w.Line("WO", "P", tx.HexS(pm))
+		} else {
+			g.w.Line("WO", tx.HexS(out))
+		}
 	}
 }
 
@@ -2157,6 +2189,51 @@ func (g *gen) rebuild(src *hframe) {
 	}
 	nf := g.finish(fid, func() qframe.QFrame { return qframe.New(data, fns...) })
 	g.equals(src, nf)
+	if pert <= 1 && !nf.err {
+		g.congruence(src, nf)
+	}
+}
+
+// congruence: a frame rebuilt from the observed values of another must yield Equal results under every operation.
+//   QC <op> <src> <rebuilt> <equals(a,b)> <equals(b,a)>
+func (g *gen) congruence(src, rebuilt *hframe) {
+	saveOps, hadOps := g.opt["ops"]
+	g.opt["ops"] = "filter+filter+sort+slice+select+drop+copy+apply+fapply+rownums+eval+eval"
+	g.batchMode, g.forceSrc = true, src
+	g.batch, g.batchOps = nil, nil
+	for try := 0; try < 3 && len(g.batch) == 0; try++ {
+		g.genOp()
+	}
+	g.batchMode, g.forceSrc = false, nil
+	if hadOps {
+		g.opt["ops"] = saveOps
+	} else {
+		delete(g.opt, "ops")
+	}
+	if len(g.batch) == 0 {
+		return
+	}
+	run, op := g.batch[0], g.batchOps[0]
+	g.batch, g.batchOps = nil, nil
+	a, pa := safely(run)
+	g.redirect = map[int]qframe.QFrame{src.id: rebuilt.qf}
+	b, pb := safely(run)
+	g.redirect = nil
+	if pa != "" || pb != "" {
+		g.w.Line("QC", op, tx.Int(src.id), tx.Int(rebuilt.id), "P", "P")
+		return
+	}
+	if (a.Err != nil) != (b.Err != nil) {
+		g.w.Line("QC", op, tx.Int(src.id), tx.Int(rebuilt.id), "E", "E")
+		return
+	}
+	if a.Err != nil {
+		g.w.Line("QC", op, tx.Int(src.id), tx.Int(rebuilt.id), "1", "1")
+		return
+	}
+	e1, _ := a.Equals(b)
+	e2, _ := b.Equals(a)
+	g.w.Line("QC", op, tx.Int(src.id), tx.Int(rebuilt.id), tx.Bool01(e1), tx.Bool01(e2))
 }
 
 // ---------------------------------------------------------------- renderings: ToCSV / ToJSON and reading them back
